@@ -96,6 +96,7 @@ package jxpath
 //@   trusted
 //@ func FormatNumber
 //@   abstract-float
+//@   assigns nothing
 //@   ensures [C18:empty-picture-is-error] len(picture) == 0 ==> r1 != nil
 //@   ensures [C18:picture-error-propagates] (len(picture) != 0 && ret("processPicture#0", 1) != nil) ==> (r1 == ret("processPicture#0", 1) && len(r0) == 0)
 //@   atif[C18:zero-is-not-scaled] "value != 0" iff !(value == 0.0)
@@ -110,7 +111,6 @@ package jxpath
 // ordinalSuffix: English ordinals - 1st 2nd 3rd, but 11th 12th 13th (also 111th, 212th, ...), everything else th
 //@ func ordinalSuffix
 //@   props C19 C09
-//@   requires n >= 0
 //@   ensures [C19:st] (n % 10 == 1 && n % 100 != 11) ==> streq(result, "st")
 //@   ensures [C19:nd] (n % 10 == 2 && n % 100 != 12) ==> streq(result, "nd")
 //@   ensures [C19:rd] (n % 10 == 3 && n % 100 != 13) ==> streq(result, "rd")
@@ -176,13 +176,13 @@ package jxpath
 //@ func getTimezoneInfo
 //@   props C19 C09
 //@   ensures r1 * 3600 + r2 * 60 + (ret("time.Time.Zone#0", 1) % 60) == ret("time.Time.Zone#0", 1)
+//@   ensures -600000 < r1 && r1 < 600000 && -60 < r2 && r2 < 60
 // formatYear: only decimal formats; the year is cut to the requested width when it is 1..18 digits (one genuine
 // defect found and repaired: wider widths made 10^width wrap to 0 and the remainder divide by zero)
 //@ func formatIntegerComponent
 //@   props C19 C09
 //@   requires marker != nil
 //@   assigns nothing
-//@   trusted
 //@ func formatYear
 //@   props C19 C09
 //@   requires marker != nil
@@ -203,7 +203,6 @@ package jxpath
 //@ func formatInteger
 //@   props C19 C09
 //@   assigns nothing
-//@   trusted
 //@ func formatTimezoneShort
 //@   props C19 C09
 //@   precise-append
@@ -213,7 +212,7 @@ package jxpath
 //@ func formatTimezoneLong
 //@   props C19 C09
 //@   precise-append
-//@   requires -100000 < h && h < 100000 && -100 < m && m < 100
+//@   requires -1000000 < h && h < 1000000 && -100 < m && m < 100
 //@   ensures [C19:sign-of-the-offset] r1 == nil ==> (len(r0) >= 1 && r0[0] == ((h < 0 || m < 0) ? 45 : 43))
 //@   atcall[C19:hhmm-digits-are-the-magnitudes] formatInteger#0 requires callee_n == (h < 0 ? -h : h) * 100 + (m < 0 ? -m : m)
 //@ func formatTimezoneSplit
@@ -223,5 +222,100 @@ package jxpath
 //@   ensures [C19:sign-of-the-offset] r1 == nil ==> (len(r0) >= 1 && r0[0] == ((h < 0 || m < 0) ? 45 : 43))
 //@   atcall[C19:hour-digits-are-the-magnitude] formatInteger#0 requires callee_n == (h < 0 ? -h : h)
 //@   atcall[C19:minute-digits-are-the-magnitude] formatInteger#1 requires callee_n == (m < 0 ? -m : m)
+
+// --- C09/C19: the date picture [Y0001]-[M01]... : scanning, variable markers, components ------------------------------------
+// FormatTime copies the text outside markers and expands each marker; start is always a position at or before the
+// scanner ($pos) so every cut of the picture is inside it.
+//@ func FormatTime
+//@   props C09 C19
+//@   ensures r1 != nil ==> len(r0) == 0
+//@   loop 0 invariant 0 <= start && start <= $pos && $pos <= len(picture)
+//@ func expandVariableMarker
+//@   props C09 C19
+//@ func parseVariableMarker
+//@   props C09 C19
+//@ func parseVariableMarkerModifiers
+//@   props C09 C19
+//@   assigns nothing
+//@ func parsePresentationModifiers
+//@   props C09 C19
+//@   assigns nothing
+//@ func parseWidthModifier
+//@   props C09 C19
+//@   ensures r2 == nil ==> (0 <= r0 && 0 <= r1)
+//@ func parseWidth
+//@   props C09 C19
+//@   ensures r1 == nil ==> 0 <= r0
+//@ func expandDateComponent
+//@   props C09 C19
+//@   requires marker != nil
+//@ func formatMonth
+//@   props C09 C19
+//@   requires marker != nil
+//@ func formatDay
+//@   props C09 C19
+//@   requires marker != nil
+//@ func formatDayInYear
+//@   props C09 C19
+//@   requires marker != nil
+//@ func formatDayOfWeek
+//@   props C09 C19
+//@   requires marker != nil
+//@ func formatWeekInYear
+//@   props C09 C19
+//@   requires marker != nil
+//@ func formatWeekInMonth
+//@   props C09 C19
+//@   requires marker != nil
+//@ func formatHour24
+//@   props C09 C19
+//@   requires marker != nil
+//@ func formatHour12
+//@   props C09 C19
+//@   requires marker != nil
+//@ func formatAMPM
+//@   props C09 C19
+//@   requires marker != nil
+//@ func formatMinute
+//@   props C09 C19
+//@   requires marker != nil
+//@ func formatSecond
+//@   props C09 C19
+//@   requires marker != nil
+//@ func formatNanosecond
+//@   props C09 C19
+//@   requires marker != nil
+//@ func getTimezoneStyle
+//@   props C09 C19
+//@   ensures r0 == tzSplit ==> r1 != nil
+//@ func formatTimezoneUnprefixed
+//@   props C09 C19
+//@   requires marker != nil
+//@ func formatTimezonePrefixed
+//@   props C09 C19
+//@   requires marker != nil
+//@ func formatTimezone
+//@   props C09 C19
+//@   requires marker != nil
+//@ func timezoneSign
+//@   props C09 C19
+//@   ensures [C19:sign-of-the-offset] len(result) == 1 && result[0] == ((h < 0 || m < 0) ? 45 : 43)
+//@   assigns nothing
+//@ func formatCalendar
+//@   props C09 C19
+//@   requires marker != nil
+//@ func formatEra
+//@   props C09 C19
+//@   requires marker != nil
+//@ func formatNameComponent
+//@   props C09 C19
+//@   requires marker != nil
+//@ func stripSpace
+//@   props C09 C19
+//@ func toTitle
+//@   props C09 C19
+//@ func isNameFormat
+//@   props C09 C19
+//@   assigns nothing
 
 // END OF CONTRACTS (package jxpath)
